@@ -481,7 +481,8 @@ Section Manager.
   | ONorm (u : str)
   | OExpand (c : str)
   | OReset
-  | OOther.     (* an operation outside the model (parse, serialize, add); conformance runs only *)
+  | OOther (k : N).   (* an operation outside the model (parse, serialize, add), conformance runs only;
+                         k = 1: a JSON-LD parse (finding F6d) *)
 
   Inductive res :=
   | RUnit
@@ -528,7 +529,7 @@ Section Manager.
     | OExpand c =>
         (s, match m_expand s c with inl x => RS x | inr e => RExn e end)
     | OReset => (m_reset s, RUnit)
-    | OOther => (s, RUnit)
+    | OOther _ => (s, RUnit)
     end.
 
   (* what is observed after every operation *)
@@ -622,7 +623,7 @@ Definition res_ok (l : list (str * str)) (o : op) (r : res) : bool :=
   | OStrict u _, RT q => qn_ok l u q
   | OExpand c, RS s => expand_ok l c s
   | OReset, RUnit => true
-  | OOther, _ => true
+  | OOther _, _ => true
   | OBind _ _ _ _, _ => false
   | OReset, _ => false
   | _, RExn _ => true          (* ValueError (cannot be split / invalid) or KeyError (generate=False) *)
@@ -682,8 +683,34 @@ Definition kf (c : case) : N :=
   then 2%N else 0%N.
 
 (* conformance runs (default bindings, parse, serialize): there is no model of these
-   operations; the per-step checker alone is applied to what rdflib shows *)
-Definition conf_model (c : case) : obs := [].
-Definition conf_eqb (a b : obs) : bool := true.
-Definition conf_spec (c : case) (o : obs) : bool :=
-  match o with [] => true | _ => all_ok (c_ops c) o end.
+   operations; the per-step checker alone is applied to what rdflib shows.  To keep the
+   generated files small the observation carries a string table and refers to it by index. *)
+Inductive ires :=
+| IUnit | IExn (e : exn) | IQ (s p ns nm : N) (e : option N) | IT (p ns nm : N) | IS (s : N).
+Record isnap := { i_res : ires; i_list : list (N * N); i_rev : list (N * N); i_api : bool }.
+Definition cobs := (list str * list isnap)%type.
+
+Definition tab_get (t : list str) (i : N) : str := nth (N.to_nat i) t [].
+Definition dec_res (t : list str) (r : ires) : res :=
+  match r with
+  | IUnit => RUnit
+  | IExn e => RExn e
+  | IQ s p ns nm e => RQ (tab_get t s) (tab_get t p, tab_get t ns, tab_get t nm)
+                         (match e with Some i => Some (tab_get t i) | None => None end)
+  | IT p ns nm => RT (tab_get t p, tab_get t ns, tab_get t nm)
+  | IS s => RS (tab_get t s)
+  end.
+Definition dec_pairs (t : list str) (l : list (N * N)) : list (str * str) :=
+  map (fun e => (tab_get t (fst e), tab_get t (snd e))) l.
+Definition dec_snap (t : list str) (x : isnap) : snap :=
+  {| s_res := dec_res t (i_res x); s_list := dec_pairs t (i_list x);
+     s_rev := dec_pairs t (i_rev x); s_api := i_api x |}.
+
+Definition conf_model (c : case) : cobs := ([], []).
+Definition conf_eqb (a b : cobs) : bool := true.
+Definition conf_spec (c : case) (o : cobs) : bool :=
+  match snd o with [] => true | l => all_ok (c_ops c) (map (dec_snap (fst o)) l) end.
+
+(* F6d region: the JSON-LD parser puts a second NamespaceManager on the store *)
+Definition conf_kf (c : case) : N :=
+  if existsb (fun o => match o with OOther 1 => true | _ => false end) (c_ops c) then 3%N else 0%N.
